@@ -20,7 +20,7 @@ RULE = ("case maps: all lower, per-record random (each record wholly lower or up
         "own instances, other instances, instances with an extra cutter site, near-misses, (d) every plasmid of the five bundled registries under the class the registry types it as. Non-trivial = the case map changes at least "
         "one letter of at least one record and the upper-case outcome is not a rejection of every record (typing: the record is accepted "
         "in upper case); distinct = distinct (workload item, case map).")
-ASSUMPTIONS = ["sequences over ACGT/acgt", "exceptions compared by class and upper-cased start_overhang; DuplicateModules by the set of module ids"]
+ASSUMPTIONS = ["sequences over ACGT/acgt", "exceptions compared by class, upper-cased start_overhang / set of blamed module ids, and their rendered message up to letter case"]
 FLOORS = {"c18_assembly_comparisons": 1000, "c18_typing_comparisons": 3000, "c18_error_outcomes_compared": 200, "c18_product_outcomes_compared": 300, "c18_registry_plasmids_typed": 300}
 MUST_REACH = ["AssemblyManager._generate_modules_map", "DNARegex._transcribe"]
 BUDGET_S = {"quick": 900, "thorough": 7200}
@@ -86,9 +86,10 @@ def assemble_outcome(V, M, texts):
             unused = sorted(r.record.id for x in w if isinstance(x.message, errors.UnusedModules) for r in x.message.remaining)
             return ("product", canon(str(p.seq)), tuple(unused))
         except errors.MissingModule as e:
-            return ("MissingModule", str(e.start_overhang).upper())
+            return ("MissingModule", str(e.start_overhang).upper(), asmmon.safe_str(e).upper())
         except errors.DuplicateModules as e:
-            return ("DuplicateModules", tuple(sorted(d.record.id for d in e.duplicates)))
+            # the error as a whole, up to letter case: who is blamed, in which order, and what the message says
+            return ("DuplicateModules", tuple(sorted(d.record.id for d in e.duplicates)), asmmon.safe_str(e).upper())
         except Exception as e:
             return (type(e).__name__,)
         except asmmon.RunawayWalk:
